@@ -1,7 +1,7 @@
 (** Syn/ParserProofs.v — the parser returns the denoted value for every token-level spelling (C03, stage V).
     Statement: if the lexer, started at [s], yields the items [its ++ k] and [spells v its], then
     [parse_fuel] returns [v] and leaves the lexer exactly in front of [k] — "each parse consumes exactly its own text". *)
-From PdfV Require Import Base.Prelude Gen.Generated Lex.Lexer Lex.StrLexer Syn.Prim Syn.Utf8 Syn.Parser Syn.Spells.
+From PdfV Require Import Base.Prelude Gen.Generated Lex.Lexer Lex.Progress Lex.StrLexer Syn.Prim Syn.Utf8 Syn.Parser Syn.Spells.
 
 (* ------------------------------------------------------------------ basics *)
 Lemma bytes_eqb_eq a b : bytes_eqb a b = true <-> a = b.
@@ -328,6 +328,19 @@ Ltac fuel_S fuel Hf := destruct fuel as [|fuel]; [cbn [length app] in Hf; rewrit
 Lemma Lexes_word_inv s w k s2 : Lexes s (IWord w :: k) s2 -> exists s1, next s = Ok (w, s1) /\ Lexes s1 k s2.
 Proof. intros H. inversion H; subst. eexists; split; eassumption. Qed.
 
+(* an item sequence that lexes from [s] to [s2] is no longer than the bytes consumed: the fuel the parser is started with
+   ([fuel_for]) always suffices *)
+Lemma Lexes_length s its s2 : Lexes s its s2 -> (length its + length (lrest s2) <= length (lrest s))%nat.
+Proof.
+  induction 1 as [s|s w s1 its s2 Hn _ IH|s s1 bs off its s2 Hn _ _ IH|s s1 bs off its s2 Hn _ _ IH]; cbn [length].
+  - lia.
+  - pose proof (next_progress _ _ _ Hn). lia.
+  - pose proof (next_progress _ _ _ Hn). pose proof (advance_len s1 off). lia.
+  - pose proof (next_progress _ _ _ Hn). pose proof (advance_len s1 off). lia.
+Qed.
+Lemma Lexes_fuel s its s2 : Lexes s its s2 -> (length its <= fuel_for s)%nat.
+Proof. intros H. pose proof (Lexes_length _ _ _ H). unfold fuel_for. lia. Qed.
+
 Lemma atom_case v w fuel R cx depth s k s_end :
   (1 <= fuel)%nat -> Lexes s (IWord w :: k) s_end ->
   (forall f s1, parse_body f R cx F_ANY depth w s1 = Ok (v, s1)) ->
@@ -514,44 +527,20 @@ Qed.
 Theorem parse_indirect_spelled v its a b id gen : spells v its ->
   parse_u64 a = Ok id -> parse_u64 b = Ok gen ->
   forall R allow s k s_end,
-    True -> vdepth v <= MAX_DEPTH ->
-    Lexes s (IWord a :: IWord b :: IWord kw_obj :: its ++ IWord kw_endobj :: k) s_end ->
-    (forall s3, Lexes s3 (its ++ IWord kw_endobj :: k) s_end -> (length its <= fuel_for s3)%nat) ->
-    exists s1, parse_indirect_object R allow F_ANY s = Ok (id, gen, v, s1) /\ Lexes s1 k s_end.
-Proof.
-  intros Hs Ha Hb R allow s k s_end _ Hd HL Hfuel.
-  destruct (Lexes_word_inv _ _ _ _ HL) as [s1 [E1 HL1]].
-  destruct (Lexes_word_inv _ _ _ _ HL1) as [s2 [E2 HL2]].
-  destruct (Lexes_word_inv _ _ _ _ HL2) as [s3 [E3 HL3]].
-  unfold parse_indirect_object. rewrite E1. cbn [bind]. rewrite Ha. cbn [bind]. rewrite E2. cbn [bind]. rewrite Hb. cbn [bind].
-  unfold next_expect. rewrite E3. cbn [bind]. rewrite bytes_eqb_refl. cbv iota. cbn [bind].
-  destruct (parse_spelled _ _ Hs (fuel_for s3) R (Some (id, gen)) MAX_DEPTH s3 (IWord kw_endobj :: k) s_end
-              (Hfuel s3 HL3) Hd HL3) as [s4 [E4 HL4]].
-  - apply follow_ok_nonint. reflexivity.
-  - reflexivity.
-  - unfold parse_ctx. rewrite E4. cbn [bind].
-    destruct (Lexes_word_inv _ _ _ _ HL4) as [s5 [E5 HL5]].
-    exists s5. split; [|exact HL5]. rewrite E5. cbn [bind]. rewrite bytes_eqb_refl. cbv iota.
-    destruct allow; reflexivity.
-Qed.
-
-(* the same with the fuel premise stated for the one state the three header tokens lead to *)
-Theorem parse_indirect_spelled_at v its a b id gen : spells v its ->
-  parse_u64 a = Ok id -> parse_u64 b = Ok gen ->
-  forall R allow s k s_end,
     vdepth v <= MAX_DEPTH ->
     Lexes s (IWord a :: IWord b :: IWord kw_obj :: its ++ IWord kw_endobj :: k) s_end ->
-    (forall s1 s2 s3, next s = Ok (a, s1) -> next s1 = Ok (b, s2) -> next s2 = Ok (kw_obj, s3) -> (length its <= fuel_for s3)%nat) ->
     exists s1, parse_indirect_object R allow F_ANY s = Ok (id, gen, v, s1) /\ Lexes s1 k s_end.
 Proof.
-  intros Hs Ha Hb R allow s k s_end Hd HL Hfuel.
+  intros Hs Ha Hb R allow s k s_end Hd HL.
   destruct (Lexes_word_inv _ _ _ _ HL) as [s1 [E1 HL1]].
   destruct (Lexes_word_inv _ _ _ _ HL1) as [s2 [E2 HL2]].
   destruct (Lexes_word_inv _ _ _ _ HL2) as [s3 [E3 HL3]].
   unfold parse_indirect_object. rewrite E1. cbn [bind]. rewrite Ha. cbn [bind]. rewrite E2. cbn [bind]. rewrite Hb. cbn [bind].
   unfold next_expect. rewrite E3. cbn [bind]. rewrite bytes_eqb_refl. cbv iota. cbn [bind].
+  assert (Hfuel : (length its <= fuel_for s3)%nat).
+  { pose proof (Lexes_fuel _ _ _ HL3) as Hf. rewrite app_length in Hf. lia. }
   destruct (parse_spelled _ _ Hs (fuel_for s3) R (Some (id, gen)) MAX_DEPTH s3 (IWord kw_endobj :: k) s_end
-              (Hfuel s1 s2 s3 E1 E2 E3) Hd HL3) as [s4 [E4 HL4]].
+              Hfuel Hd HL3) as [s4 [E4 HL4]].
   - apply follow_ok_nonint. reflexivity.
   - reflexivity.
   - unfold parse_ctx. rewrite E4. cbn [bind].
